@@ -218,6 +218,25 @@ pub fn c10_rl(g: &mut Gen) {
     let zeros = end + 3 - ones;
     for r in (0..zeros).step_by(std::cmp::max(1, zeros as usize / 25)) { lines.push(format!("rl A it sel0 {} : n n N4 n l n", r)); }
     g.group(lines);
+    // the same kinds of iterators over a LOADED copy of a vector with many blocks and large gaps (more than one sample
+    // per index): `load` rebuilds the three sample indexes, which decide where a positioned iterator starts
+    let (runs, end) = make_runs(g, 600, &[1, 7, 8, 300, 5000], false);
+    let ones: u64 = runs.iter().map(|r| r.1).sum();
+    let len = end + 3;
+    let mut lines = vec![format!("rl A build : {}", runs_calls(&runs, Some(len))), "ser reload A L extra=0".to_string(), "rl L eq A".to_string(), "rl L len".to_string(), "rl L ones".to_string()];
+    for (i, (a, l)) in runs.iter().enumerate() {
+        if i % 7 != 0 && i + 3 < runs.len() { continue; }
+        for x in [*a, a + l - 1, a + l, a.saturating_sub(1)] {
+            lines.push(format!("rl L it pred {} : l n n l", x));
+            lines.push(format!("rl L it succ {} : l n n l", x));
+            lines.push(format!("rl L rank {}", x)); lines.push(format!("rl L get {}", x));
+        }
+    }
+    for r in (0..ones).step_by(std::cmp::max(1, ones as usize / 40)) { lines.push(format!("rl L it sel {} : l n n l", r)); lines.push(format!("rl L select {}", r)); }
+    let zeros = len - ones;
+    for r in (0..zeros).step_by(std::cmp::max(1, zeros as usize / 40)) { lines.push(format!("rl L it sel0 {} : l n n l", r)); lines.push(format!("rl L select0 {}", r)); }
+    lines.push(format!("rl L it run : {} n", vec!["n"; runs.len()].join(" ")));
+    g.group(lines);
 }
 
 pub fn c16_rl(g: &mut Gen) {
